@@ -154,6 +154,7 @@ class World(object):
         self.in_cb = None
         self.cur_cb = None
         self.n_subst = 0
+        self.tick_ms = 0   # virtual time that passes after every callback (adaptive-sizing runs)
         self.real_ends = ENDS if only is None else (only,)
         session.datetime = _VirtualDatetimeModule
         dbus.RECORDER.sink = self._on_dbus
@@ -397,6 +398,8 @@ class World(object):
                 self.sock[end].recv_quota = quota
         self.emit('Cb', end, which, i={'kind': src.kind})
         (ran, exc) = GLib.SCHED.run(src)
+        if self.tick_ms:
+            GLib.SCHED.advance(self.tick_ms)
         self.sock[end].send_quota = None
         self.sock[end].recv_quota = None
         if exc is not None:
